@@ -480,8 +480,11 @@ def _chains(fnode, expr, upto_line, limit=8):
             for ln, val, kind in found:
                 if val is e:
                     continue
-                go(val, ln, steps + (["elem"] if kind == "elem" else []),
-                   depth + 1)
+                # (names bound inside the value -- comprehension variables
+                # -- are looked up from the value's last line: the value of a
+                # normalised statement may span lines behind its own)
+                go(val, max(ln, getattr(val, "end_lineno", None) or ln),
+                   steps + (["elem"] if kind == "elem" else []), depth + 1)
             return
         out.append(steps + ["expr:" + type(e).__name__])
     go(expr, upto_line, [], 0)
